@@ -173,7 +173,7 @@ func runOldSchema(o *opts) {
 		// a commit on top records the current workspace faithfully
 		abs := filepath.Join(p.Root, c.artPath)
 		ek := applyEdit(rr, p, c, abs)
-		if ek == "root-to-file" || ek == "delete-root" {
+		if ek == "root-to-file" || ek == "delete-root" || ek == "subdir-to-outside-link" {
 			// the artifact itself is gone or no directory any more: commit refuses
 			t, _ = p.do(Cmd{Kind: "commit", Copy: rr.chance(1, 2)}, nil, want(5), nil, nil)
 			tagIt(t, "commit on top after "+ek)
